@@ -13,7 +13,7 @@ global size_of usize == 8;
 pub assume_specification<T>[<[T]>::reverse](s: &mut [T])
     ensures final(s)@ == old(s)@.reverse();
 
-broadcast use {octets::axiom_varint_enc_len, octets::axiom_varint_roundtrip, octets::axiom_varint_dec_range};
+broadcast use {octets::axiom_varint_enc_len};
 
 //@extract const renet/src/packet.rs SLICE_SIZE
 //@extract struct renet/src/packet.rs Slice
@@ -38,6 +38,7 @@ impl From<octets::BufferTooShortError> for SerializationError {
 //@include contracts/shared/packet_specs.rs
 //@include contracts/shared/slice_specs.rs
 //@include contracts/shared/wire_specs.rs
+//@include contracts/shared/wire_format_specs.rs
 
 /// rule D8: the `Packet::Ack` arm of to_bytes uses `iter().rev()` (not in Verus' subset); nothing is concluded about it
 #[verifier::external_body]
@@ -64,10 +65,13 @@ impl Packet {
                 // serialization fails only if the buffer is shorter than the packet's wire length, and writes exactly that many bytes
                 &&& (r is Ok <==> old(b).cap_spec() >= wire_len(*self))                                   // @C13 to_bytes.fails_only_when_buffer_too_short
                 &&& (r matches Ok(n) ==> n == wire_len(*self) && final(b).cap_spec() + n == old(b).cap_spec())     // @C13,C16 to_bytes.writes_exactly_wire_len
+                // what is written is the wire format of this packet, appended to what the buffer held
+                &&& (r is Ok ==> final(b).out() == old(b).out() + wire(pview(*self)))                              // @C16 to_bytes.writes_the_wire_format
                 // (that the error value is BufferTooShort is not stated: this Verus version leaves the `?` From-conversion unspecified)
             },
 //@entry
         let ghost cap0 = b.cap_spec();
+        let ghost out0 = b.out();
         proof {
             if *self is SmallReliable { lemma_reliable_body_take(self->SmallReliable_messages@); }
             if *self is SmallUnreliable { lemma_unreliable_body_take(self->SmallUnreliable_messages@); }
@@ -77,6 +81,17 @@ impl Packet {
                         it1.seq().len() == messages@.len(),
                         forall|i: int| 0 <= i < messages@.len() ==> *(#[trigger] it1.seq()[i]) == messages@[i],
                         b.cap_spec() + 1 + vl(*sequence) + 1 + 2 + small_reliable_body(messages@.take(it1.index() as int)) == cap0,
+                        b.out() == out0 + seq![0u8] + enc(*sequence) + seq![*channel_id] + octets::u16_be(messages@.len() as u16)
+                            + wire_rel_msgs(rel_msgs_view(messages@.take(it1.index() as int))),
+//@loopend 1
+                    proof {
+                        let k = it1.index() as int;
+                        let v1 = rel_msgs_view(messages@.take(k + 1));
+                        assert(v1.drop_last() =~= rel_msgs_view(messages@.take(k)));
+                        assert(v1.last() == (messages@[k].0, messages@[k].1@));
+                        assert(b.out() == out0 + seq![0u8] + enc(*sequence) + seq![*channel_id] + octets::u16_be(messages@.len() as u16) + wire_rel_msgs(v1))
+                            by { broadcast use seq_assoc::lemma_concat_assoc; }
+                    }
 //@after /for \(message_id, message\) in messages \{/
                     proof {
                         let k = it1.index() as int;
@@ -98,6 +113,31 @@ impl Packet {
                         it2.seq().len() == messages@.len(),
                         forall|i: int| 0 <= i < messages@.len() ==> *(#[trigger] it2.seq()[i]) == messages@[i],
                         b.cap_spec() + 1 + vl(*sequence) + 1 + 2 + small_unreliable_body(messages@.take(it2.index() as int)) == cap0,
+                        b.out() == out0 + seq![1u8] + enc(*sequence) + seq![*channel_id] + octets::u16_be(messages@.len() as u16)
+                            + wire_unrel_msgs(unrel_msgs_view(messages@.take(it2.index() as int))),
+//@loopend 2
+                    proof {
+                        let k = it2.index() as int;
+                        let v1 = unrel_msgs_view(messages@.take(k + 1));
+                        assert(v1.drop_last() =~= unrel_msgs_view(messages@.take(k)));
+                        assert(v1.last() == messages@[k]@);
+                        assert(b.out() == out0 + seq![1u8] + enc(*sequence) + seq![*channel_id] + octets::u16_be(messages@.len() as u16) + wire_unrel_msgs(v1))
+                            by { broadcast use seq_assoc::lemma_concat_assoc; }
+                    }
+//@afterloop 1
+                proof {
+                    assert(messages@.take(messages@.len() as int) =~= messages@);
+                    assert(b.out() == out0 + wire(pview(*self))) by { broadcast use seq_assoc::lemma_concat_assoc; }   // @C16 to_bytes.arm_writes_the_wire_format
+                }
+//@afterloop 2
+                proof {
+                    assert(messages@.take(messages@.len() as int) =~= messages@);
+                    assert(b.out() == out0 + wire(pview(*self))) by { broadcast use seq_assoc::lemma_concat_assoc; }   // @C16 to_bytes.arm_writes_the_wire_format
+                }
+//@after /b\.put_bytes\(&slice\.payload\)\?;/ 1
+                proof { assert(b.out() == out0 + wire(pview(*self))) by { broadcast use seq_assoc::lemma_concat_assoc; }   // @C16 to_bytes.arm_writes_the_wire_format }
+//@after /b\.put_bytes\(&slice\.payload\)\?;/ 2
+                proof { assert(b.out() == out0 + wire(pview(*self))) by { broadcast use seq_assoc::lemma_concat_assoc; }   // @C16 to_bytes.arm_writes_the_wire_format }
 //@endfn
 
 //@fn renet/src/packet.rs Packet::from_bytes
@@ -108,21 +148,87 @@ impl Packet {
         // no precondition: any datagram
         ensures
             r matches Ok(p) ==> packet_wire_valid(p),                    // @C06,C16 from_bytes.decoded_packet_is_wire_valid
-//@loop 1
+            // the function computes the wire parser: it accepts exactly what `parse` accepts, returns that packet and consumes exactly its bytes
+            r matches Ok(p) ==> parse(old(b).rest()) == Some((pview(p), final(b).rest())),     // @C16 from_bytes.result_is_the_wire_parse
+            r is Err ==> parse(old(b).rest()) is None,                                          // @C16 from_bytes.refuses_only_what_the_format_refuses
+            // everything that decodes lies in the domain of the round-trip lemma: re-encoding it and decoding again gives the same value
+            r matches Ok(p) ==> wire_ok(pview(p)),                                              // @C16 from_bytes.decoded_packet_is_in_the_round_trip_domain
+//@entry
+        let ghost rest0 = b.rest();
+//@after /let packet_type = b\.get_u8\(\)\?;/
+        let ghost rest1 = b.rest();
+//@after /^\s+0 => \{/
+                proof { assert(parse(rest0) == parse_small_reliable(rest1)); }
+//@after /^\s+1 => \{/
+                proof { assert(parse(rest0) == parse_small_unreliable(rest1)); }
+//@after /^\s+2 => \{/
+                proof { assert(parse(rest0) == parse_slice(rest1, true)); }
+//@after /^\s+3 => \{/
+                proof { assert(parse(rest0) == parse_slice(rest1, false)); }
+//@after /^\s+4 => \{/
+                proof { assert(parse(rest0) == parse_ack(rest1)); }
+//@after /let messages_len = b\.get_u16\(\)\?;/ 1
+                let ghost ra4 = b.rest();
+//@after /let mut messages: Vec<\(u64, Bytes\)> = Vec::with_capacity\(64\);/
+                proof { assert(rel_msgs_view(messages@) =~= Seq::<(u64, Seq<u8>)>::empty()); }
+//@loop 1 iter=itA
                     invariant
                         sequence < 0x4000_0000_0000_0000,
                         forall|i: int| 0 <= i < messages@.len() ==> (#[trigger] messages@[i]).0 < 0x4000_0000_0000_0000,
-//@loop 2
+                        itA.seq().len() == messages_len,
+                        messages@.len() == itA.index(),
+                        forall|i: int| 0 <= i < messages@.len() ==> (#[trigger] messages@[i]).1@.len() < 0x4000_0000_0000_0000,
+                        parse_rel_msgs(ra4, messages_len as nat, Seq::empty())
+                            == parse_rel_msgs(b.rest(), (messages_len - itA.index()) as nat, rel_msgs_view(messages@)),
+//@before /let message_id = b\.get_varint\(\)\?;/ 1
+                    let ghost rb = b.rest();
+                    let ghost m0 = messages@;
+//@after /messages\.push\(\(message_id, payload\.to_vec\(\)\.into\(\)\)\);/
+                    proof {
+                        assert(rel_msgs_view(messages@) =~= rel_msgs_view(m0).push((message_id, payload.rest())));
+                    }
+//@after /let messages_len = b\.get_u16\(\)\?;/ 2
+                let ghost rc4 = b.rest();
+//@after /let mut messages: Vec<Bytes> = Vec::with_capacity\(64\);/
+                proof { assert(unrel_msgs_view(messages@) =~= Seq::<Seq<u8>>::empty()); }
+//@loop 2 iter=itB
                     invariant
                         sequence < 0x4000_0000_0000_0000,
-//@loop 3
+                        itB.seq().len() == messages_len,
+                        messages@.len() == itB.index(),
+                        forall|i: int| 0 <= i < messages@.len() ==> (#[trigger] messages@[i])@.len() < 0x4000_0000_0000_0000,
+                        parse_unrel_msgs(rc4, messages_len as nat, Seq::empty())
+                            == parse_unrel_msgs(b.rest(), (messages_len - itB.index()) as nat, unrel_msgs_view(messages@)),
+//@before /let payload = b\.get_bytes_with_varint_length\(\)\?;/ 2
+                    let ghost m1 = messages@;
+//@after /messages\.push\(payload\.to_vec\(\)\.into\(\)\);/
+                    proof {
+                        assert(unrel_msgs_view(messages@) =~= unrel_msgs_view(m1).push(payload.rest()));
+                    }
+//@before /for _ in 0\.\.num_remaining_ranges \{/
+                let ghost re5 = b.rest();
+                proof { assert(ranges_view(ack_ranges@) =~= seq![(first_range_start, (first_range_end + 1) as u64)]); }
+//@loop 3 iter=itC
                     invariant
                         sequence < 0x4000_0000_0000_0000,
                         ack_ranges@.len() >= 1,
                         ranges_desc_wf(ack_ranges@),
                         previous_range_start == ack_ranges@.last().start,
+                        itC.seq().len() == num_remaining_ranges,
+                        ack_ranges@.len() == itC.index() + 1,
+                        parse_ack_ranges(re5, num_remaining_ranges as nat, first_range_start, seq![(first_range_start, (first_range_end + 1) as u64)])
+                            == parse_ack_ranges(b.rest(), (num_remaining_ranges - itC.index()) as nat, previous_range_start, ranges_view(ack_ranges@)),
+//@before /let gap = b\.get_varint\(\)\?;/
+                    let ghost a0 = ack_ranges@;
+//@after /ack_ranges\.push\(range_start\.\.range_end \+ 1\);/
+                    proof {
+                        assert(ranges_view(ack_ranges@) =~= ranges_view(a0).push((range_start, (range_end + 1) as u64)));
+                    }
 //@before /ack_ranges\.reverse\(\);/
+                let ghost a1 = ack_ranges@;
                 proof { lemma_reverse_desc_is_wf(ack_ranges@); }
+//@after /ack_ranges\.reverse\(\);/
+                proof { assert(ranges_view(ack_ranges@) =~= ranges_view(a1).reverse()); }
 //@endfn
 }
 
